@@ -257,7 +257,13 @@ pub fn judge(directed: bool, g: &GCase, root: Key, cell: &Cell, meth: &MethSpec,
         };
     }
     if let Some(p) = &out.panic {
-        let clause = if p.starts_with(hook::SELF_DEADLOCK) { "search.self-deadlock" } else { "search.panic" };
+        let clause = if p.starts_with(hook::SELF_DEADLOCK) {
+            "search.self-deadlock"
+        } else if p.starts_with(REPEATED_CALL_DIFFERS) {
+            "search.second-call-on-same-object-differs"
+        } else {
+            "search.panic"
+        };
         bad!(with(&["C07"]), clause, "{}", p);
         return fails;
     }
